@@ -71,7 +71,7 @@ func classifyCompileError(p *synth.Project, out string) string {
 					continue
 				}
 				for _, probe := range []string{lc + "RawPtr", lc + "Raw", lc + "Uint64", lc + "Float64", lc + "Bool", " " + lc + " (variable of type", "use " + lc + " (", lc + "Var",
-					": " + lc + " (local variable)", ": " + lc + ".", "invalid operation: cannot call non-function " + lc} {
+					": " + lc + " (local variable)", ": " + lc + ".", "invalid operation: cannot call non-function " + lc, "; have " + lc + " (variable", "have " + lc + " ("} {
 					if strings.Contains(head, probe) {
 						return "parameter-name-collides-with-generated-identifier"
 					}
